@@ -304,7 +304,10 @@ bufferevent_decrement_read_buckets_(struct bufferevent_private *bev, ev_ssize_t 
 		bev->rate_limiting->limit.read_limit -= bytes;
 		if (bev->rate_limiting->limit.read_limit <= 0) {
 			bufferevent_suspend_read_(&bev->bev, BEV_SUSPEND_BW);
-			if (event_add(&bev->rate_limiting->refill_bucket_event,
+			/* do not postpone a refill the other direction waits for */
+			if (!event_pending(&bev->rate_limiting->refill_bucket_event,
+				EV_TIMEOUT, NULL) &&
+			    event_add(&bev->rate_limiting->refill_bucket_event,
 				&bev->rate_limiting->cfg->tick_timeout) < 0)
 				r = -1;
 		} else if (bev->read_suspended & BEV_SUSPEND_BW) {
@@ -342,7 +345,10 @@ bufferevent_decrement_write_buckets_(struct bufferevent_private *bev, ev_ssize_t
 		bev->rate_limiting->limit.write_limit -= bytes;
 		if (bev->rate_limiting->limit.write_limit <= 0) {
 			bufferevent_suspend_write_(&bev->bev, BEV_SUSPEND_BW);
-			if (event_add(&bev->rate_limiting->refill_bucket_event,
+			/* do not postpone a refill the other direction waits for */
+			if (!event_pending(&bev->rate_limiting->refill_bucket_event,
+				EV_TIMEOUT, NULL) &&
+			    event_add(&bev->rate_limiting->refill_bucket_event,
 				&bev->rate_limiting->cfg->tick_timeout) < 0)
 				r = -1;
 		} else if (bev->write_suspended & BEV_SUSPEND_BW) {
@@ -1003,7 +1009,9 @@ bufferevent_decrement_read_limit(struct bufferevent *bev, ev_ssize_t decr)
 	new_limit = (bevp->rate_limiting->limit.read_limit -= decr);
 	if (old_limit > 0 && new_limit <= 0) {
 		bufferevent_suspend_read_(bev, BEV_SUSPEND_BW);
-		if (event_add(&bevp->rate_limiting->refill_bucket_event,
+		if (!event_pending(&bevp->rate_limiting->refill_bucket_event,
+			EV_TIMEOUT, NULL) &&
+		    event_add(&bevp->rate_limiting->refill_bucket_event,
 			&bevp->rate_limiting->cfg->tick_timeout) < 0)
 			r = -1;
 	} else if (old_limit <= 0 && new_limit > 0) {
@@ -1032,7 +1040,9 @@ bufferevent_decrement_write_limit(struct bufferevent *bev, ev_ssize_t decr)
 	new_limit = (bevp->rate_limiting->limit.write_limit -= decr);
 	if (old_limit > 0 && new_limit <= 0) {
 		bufferevent_suspend_write_(bev, BEV_SUSPEND_BW);
-		if (event_add(&bevp->rate_limiting->refill_bucket_event,
+		if (!event_pending(&bevp->rate_limiting->refill_bucket_event,
+			EV_TIMEOUT, NULL) &&
+		    event_add(&bevp->rate_limiting->refill_bucket_event,
 			&bevp->rate_limiting->cfg->tick_timeout) < 0)
 			r = -1;
 	} else if (old_limit <= 0 && new_limit > 0) {
